@@ -654,6 +654,9 @@ func (x *Exec) havocModifies(post *State, env *CEnv, pc *ProcContract, n ast.Nod
 // body is being verified.
 func (x *Exec) applyGSets(post *State, env *CEnv, pc *ProcContract, n ast.Node) {
 	for _, gs := range pc.GSets {
+		if gs[2] != "" && gs[2] != x.curRet {
+			continue
+		}
 		lhs, err1 := ParseCExpr(gs[0])
 		rhs, err2 := ParseCExpr(gs[1])
 		if err1 != nil || err2 != nil {
@@ -1874,6 +1877,12 @@ func (x *Exec) builtin(st *State, fr *Frame, ce *ast.CallExpr, name string, k fu
 	switch name {
 	case "len", "cap":
 		v := x.expr(st, fr, ce.Args[0])
+		if si := x.d.sorts[v.Sort]; si != nil && si.Kind == "arrslice" && name == "len" {
+			r := tApp("Int", "len_"+v.Sort, v)
+			r.Ty = types.Typ[types.Int]
+			k(st, []Term{r})
+			return
+		}
 		if si := x.d.sorts[v.Sort]; si != nil && si.Kind == "list" {
 			if name == "cap" {
 				// capacity is not modelled by mathematical sequences: an unknown value >= len
@@ -1921,6 +1930,14 @@ func (x *Exec) builtin(st *State, fr *Frame, ce *ast.CallExpr, name string, k fu
 		case *types.Slice:
 			so := x.sortOf(t)
 			n := x.expr(st, fr, ce.Args[1])
+			if si := x.d.sorts[so]; si != nil && si.Kind == "arrslice" {
+				x.oblige(st, "safety", "make-len", tApp("Bool", ">=", n, tInt(0)), ce, "make length is not negative")
+				ze := x.zero(u.Elem())
+				r := mk(so, "(mk_%s ((as const (Array Int %s)) %s) %s)", so, si.Elem, ze.S, n.S)
+				r.Ty = t
+				k(st, []Term{r})
+				return
+			}
 			if n.S == "0" {
 				k(st, []Term{{S: "nil_" + so, Sort: so, Ty: t}})
 				return
